@@ -3,3 +3,4 @@ import Driver.Decode
 import Driver.FilterEng
 import Driver.CacheEng
 import Driver.TreeEng
+import Driver.CtrlEng
